@@ -1,12 +1,12 @@
 """Free-text parts of MANIFEST.json (kept next to props.py; tools/mkmanifest combines them)."""
 
-HOOK_COMMITS = ["ee93ed3"]
+HOOK_COMMITS = ["ee93ed3", "2b1baea"]
 
 _PENDING = "not yet claimed: the model/theorems for this property are still being built (see DESIGN.md section 6 build order); not a statement that the technique cannot apply"
 
 NOT_APPLICABLE = {p: _PENDING for p in
                   ["C01", "C02", "C03", "C04", "C05", "C06", "C07", "C08", "C09", "C10", "C11", "C13",
-                   "C14", "C15", "C16", "C18", "C19", "C20"]}
+                   "C14", "C15", "C16", "C18", "C19"]}
 
 TEXT = {
     "C17": dict(
@@ -18,5 +18,10 @@ TEXT = {
         technique="Coq proof: inductive invariant (FIFO ghost logs, capacity, single-waker-slot parking discipline) over all poll sequences + per-op lock-step correspondence of the real byte channel (results and wake counts), exhaustive to a depth bound",
         level="Machine-checked theorems (Props/C12.v, 10 theorems, no axioms) over an executable model of Conduit/ByteReader/ByteWriter including the coop budget layer, for every capacity >= 1 and every op list: reads ++ buffered = writes (prefix, order, no loss/duplication), buffered <= capacity, Pending implies parked-with-waker-in-slot or self-wake, a parked side is woken by any step that falsifies its wait condition or closes the channel, close is permanent, writes fail after close, reads drain then EOF. Tied to the code by hand-polling the real channel with counting wakers on every op list to a depth bound over capacities 1..3 plus random lists (cap <= 64, budget changes), comparing result and per-side wake counts after every op, and by an independent FIFO/wait-set oracle on the implementation trace.",
         note="Trusted: Coq kernel + vm_compute; model + harness; the mutex makes a poll atomic; wakers deliver. Ghost fields (written/readlog/parked) are never read by transitions. Memory-level concurrency inside a poll is out of scope.",
+    ),
+    "C20": dict(
+        technique="Coq proof: inductive invariant (reported counts = sizes of the link sets) over all operation sequences of the Links registry + interleaving proof of counter conservation at atomic granularity; lock-step correspondence of the real Links/UplinkReporter with the model and an independent reference-relation oracle; multi-thread stress of the real counters",
+        level="Machine-checked theorems (Props/C20.v, 7 theorems, no axioms): for every sequence of register/insert/remove/remove_remote/remove_lane/remove_all/count/snapshot operations the total equals the number of (lane, remote) links held, each lane reader reports exactly |remotes of that lane|, the aggregate reader reports exactly the number of links; broadcast counts |linked remotes| and a targeted event counts 1 on lane and aggregate cells; and for the atomic counters, under every interleaving of load/CAS micro-steps from any number of threads (spurious CAS failures included) value + sum of snapshots = total counted below saturation. Tied to the code by running the real Links with real UplinkReporters/readers on generated op lists (per-op outputs compared) and by a reference-relation oracle on the implementation trace; the atomics are additionally stressed from 4 threads with the sum check.",
+        note="Trusted: Coq kernel + vm_compute; model + harness. forward/backwards agreement and query answers are covered by correspondence + oracle, not by a theorem yet. A genuine defect (remove_remote dropped the lane's reporter) was found and repaired in /repo commit 4468261 (KNOWN_FINDINGS.txt).",
     ),
 }
